@@ -1,7 +1,7 @@
 // @unit c10_routing property=C10 attach=typify-impl/src/convert.rs
-// @h c10_route_integer tier=both
-// @h c10_route_number tier=both
-// @h c10_route_string tier=both
+// @h c10_route_integer tier=both replay=none
+// @h c10_route_number tier=both replay=none
+// @h c10_route_string tier=both replay=none
 // @canary canary_c10_routing
 //
 // C10 -- ROUTING: the conversion driver hands a plain scalar schema to the selection
